@@ -84,22 +84,29 @@ def get_minimal_hops_to_goal(topology, sensitive_addresses):
                 if distance[i][j] > dis:
                     distance[i][j] = distance[i][k] + distance[k][j]
 
-    # get list of all subnets we need to visit
-    subnets_to_visit = [INTERNET]
+    # get list of all subnets that must be connected (the terminals)
+    terminals = [INTERNET]
     for subnet, host in sensitive_addresses:
-        if subnet not in subnets_to_visit:
-            subnets_to_visit.append(subnet)
+        if subnet not in terminals:
+            terminals.append(subnet)
 
-    # find minimum shortest path that visits internet subnet and all
-    # sensitive subnets by checking all possible permutations
-    shortest = max_value
-    for pm in permutations(subnets_to_visit):
-        pm_sum = 0
-        for i in range(len(pm) - 1):
-            pm_sum += distance[pm[i]][pm[i+1]]
-        shortest = min(shortest, pm_sum)
-
-    return shortest
+    # find size of the minimum tree connecting the internet subnet and all
+    # sensitive subnets (minimum steiner tree, Dreyfus-Wagner algorithm)
+    distance = distance.astype(np.int64)
+    num_sets = 1 << len(terminals)
+    tree = np.full((num_sets, num_subnets), max_value, dtype=np.int64)
+    for t_idx, t in enumerate(terminals):
+        tree[1 << t_idx] = distance[t]
+    for t_set in range(1, num_sets):
+        if t_set & (t_set - 1) == 0:
+            continue
+        sub = (t_set - 1) & t_set
+        while sub > 0:
+            tree[t_set] = np.minimum(tree[t_set], tree[sub] + tree[t_set ^ sub])
+            sub = (sub - 1) & t_set
+        for k in range(num_subnets):
+            tree[t_set] = np.minimum(tree[t_set], tree[t_set][k] + distance[k])
+    return min(max_value, tree[num_sets - 1].min())
 
 
 def min_subnet_depth(topology):
